@@ -35,6 +35,7 @@ type hOpts struct {
 	NearMiss   bool // near-miss / duplicated state and code parameters (C04)
 	MaxSessions int // stop offering new logins beyond this many issued ids (0 = no limit)
 	Prefix      []seqx.Event // applied (silently) when a world is created: start from a non-initial state
+	Rollover    bool         // the provider may roll its signing key once
 	OnlyLive    bool         // present only cookies of sessions that exist in the store (plus none when nothing exists)
 }
 
@@ -176,6 +177,8 @@ func (o hOpts) model(monitors ...hMonitor) seqx.Model {
 		switch e.Kind {
 		case "advance":
 			w.Advance(time.Duration(e.Adv) * time.Second)
+		case "rollover":
+			w.Rollover()
 		case "req":
 			req := *e.Req
 			sid := resolveCookie(w, req.Cookie)
@@ -364,6 +367,9 @@ func (o hOpts) model(monitors ...hMonitor) seqx.Model {
 				}
 			}
 		}
+		if o.Rollover && !w.Rolled {
+			out = append(out, seqx.Event{Kind: "rollover"})
+		}
 		// expand requests with provider answers and faults, sized by a dry run
 		for _, e := range base {
 			out = append(out, e)
@@ -460,7 +466,7 @@ func (o hOpts) model(monitors ...hMonitor) seqx.Model {
 				stale = true
 			}
 		}
-		fmt.Fprintf(&sb, "|stale=%v|dev=%d|crash=%v", stale, h.Dev, w.Crashes > 0)
+		fmt.Fprintf(&sb, "|stale=%v|dev=%d|crash=%v|rolled=%v", stale, h.Dev, w.Crashes > 0, w.Rolled)
 		if hs := hidden.Dump(w.Raw, "log", "clock", "mu", "sessions", "client", "absoluteSessionTimeout", "idleSessionTimeout"); hs != "{}" {
 			sb.WriteString("|hidden:" + hs)
 		}
